@@ -689,6 +689,178 @@ pub fn run(ctx: &mut Ctx) {
         }
     }
 
+    // ================= v3 certificate-forming signatures (verify only): user id certifications hash the raw
+    // user id (no 0xB4 prefix / length), key signatures and bindings the 0x99-framed keys
+    for (ki, k) in ks.iter().enumerate() {
+        if k.v6 {
+            continue;
+        }
+        let pubkey = k.key.primary_key.public_key().clone();
+        let kf = key_hash_framing(&k.prim_body);
+        let skf = k.sub_body.as_ref().map(|b| key_hash_framing(b));
+        let subpub = k.key.secret_subkeys.first().map(|s| s.key.public_key().clone());
+        for (ti, typ) in [0x10u8, 0x11, 0x12, 0x13, 0x30, 0x1F, 0x20, 0x18, 0x28].into_iter().enumerate() {
+            for ui in 0..ctx.qt(2usize, 6usize) {
+                if !ctx.mine() {
+                    continue;
+                }
+                let mut rng = ctx.rng("v3cert", (ki * 1000 + ti * 10 + ui) as u64);
+                let hash = (8u8, HashAlgorithm::Sha256);
+                if k.key.primary_key.sign(&Password::empty(), hash.1, &[0x5A; 32]).is_err() {
+                    continue;
+                }
+                let uid_s: String = (0..[0usize, 1, 40, 300, 255, 256][ui % 6]).map(|i| (b'a' + (i % 26) as u8) as char).collect();
+                let Ok(uid) = UserId::from_str(Default::default(), &uid_s) else { continue };
+                let uid_body = uid.to_bytes().unwrap_or_default();
+                let content: Vec<&[u8]> = match typ {
+                    0x10..=0x13 | 0x30 => vec![&kf[..], &uid_body[..]],
+                    0x1F | 0x20 => vec![&kf[..]],
+                    _ => match skf.as_ref() {
+                        Some(s) => vec![&kf[..], &s[..]],
+                        None => continue,
+                    },
+                };
+                let created: u32 = rng.gen();
+                let Some((sig, want, body)) = ref_signature(3, typ, &k.key.primary_key, hash, vec![], vec![], created, &content, &mut rng) else {
+                    ctx.tally("v3cert.not-parsed", 1);
+                    continue;
+                };
+                let ver = RecVerifier::new(&pubkey);
+                let replay = json!({"key": k.name, "v3": true, "typ": typ, "uid_len": uid_s.len(), "sig": hexs(&body)});
+                let r = ctx.guarded("C11/verify-v3-cert", || replay.clone(), || match typ {
+                    0x10..=0x13 | 0x30 => sig.verify_certification(&ver, Tag::UserId, &uid),
+                    0x1F | 0x20 => sig.verify_key(&ver),
+                    _ => sig.verify_subkey_binding(&ver, subpub.as_ref().unwrap()),
+                });
+                ctx.eval();
+                ctx.cover(&("verify-v3-cert", &k.name, typ, ui));
+                ctx.seen("verify.types", format!("{:#04x}-v3", typ));
+                let seen = ver.take();
+                match r {
+                    Some(Ok(())) => {
+                        if seen.len() != 1 || seen[0].digest != want {
+                            ctx.violation(format!("C11/verify/v3/digest-mismatch/type-{typ:#04x}"), "v3 certificate signature: digest seen by the primitive differs from the RFC digest", replay.clone());
+                        }
+                    }
+                    Some(Err(e)) => {
+                        // a v3 signature type the library does not verify at all (refused before hashing) is not a digest matter
+                        if seen.is_empty() {
+                            ctx.tally(&format!("v3cert.refused-before-hashing.{typ:#04x}"), 1);
+                            ctx.note(format!("v3 type {typ:#04x} refused before hashing: {e}"));
+                        } else {
+                            ctx.violation(
+                                format!("C11/verify/v3/reference-signature-rejected/type-{typ:#04x}"),
+                                format!("library rejected a v3 signature built per RFC 5.2.4: {e}; digest seen by the primitive {}, reference digest {}", hex::encode(&seen[0].digest), hex::encode(&want)),
+                                replay.clone(),
+                            );
+                        }
+                    }
+                    None => {}
+                }
+            }
+        }
+    }
+
+    // ================= one-pass messages: every pairing of one-pass header version x signature version. Whatever
+    // the library decides about a mismatched pair, a digest that reaches the primitive is the RFC digest of THAT
+    // signature packet (v6: with its salt)
+    for (ki, k) in ks.iter().enumerate() {
+        if k.name.contains("Rsa") || k.name.contains("Dsa") {
+            continue;
+        }
+        let pubkey = k.key.primary_key.public_key().clone();
+        let doc = &docs[2];
+        for sigv in [4u8, 6] {
+            if (sigv == 6) != k.v6 {
+                continue;
+            }
+            for opsv in [3u8, 6] {
+                for typ in [0u8, 1] {
+                    if !ctx.mine() {
+                        continue;
+                    }
+                    let mut rng = ctx.rng("ops-pair", (ki * 100 + sigv as usize * 10 + opsv as usize + typ as usize * 3) as u64);
+                    let hash = if k.v6 { (10u8, HashAlgorithm::Sha512) } else { (8u8, HashAlgorithm::Sha256) };
+                    if k.key.primary_key.sign(&Password::empty(), hash.1, &vec![0x5A; rfc::hash_len(hash.0).unwrap_or(32)]).is_err() {
+                        continue;
+                    }
+                    let canon = rfc::canon_text(doc);
+                    let content: Vec<&[u8]> = if typ == 1 { vec![&canon[..]] } else { vec![&doc[..]] };
+                    let signer: &dyn SigningKey = &k.key.primary_key;
+                    let hashed = ref_hashed_area(1, signer, 1_700_000_000, &mut rng);
+                    let Some((_sig, want, body)) = ref_signature(sigv, typ, signer, hash, hashed, vec![], 1_700_000_000, &content, &mut rng) else { continue };
+                    let Ok(rs) = parse_sig(&body) else { continue };
+                    // the signature made over the digest WITHOUT the salt (what a reader computes when it prepares the
+                    // hasher from a v3 one-pass header): must never be accepted for a v6 signature
+                    let issuer: Vec<u8> = if opsv == 6 { k.key.primary_key.fingerprint().as_bytes().to_vec() } else { k.key.primary_key.legacy_key_id().as_ref().to_vec() };
+                    if opsv == 6 && issuer.len() != 32 {
+                        continue; // a v6 one-pass header names a v6 key
+                    }
+                    let ops = rfc::sig::RefOps { version: opsv, typ, hash_alg: hash.0, pub_alg: rs.pub_alg, salt: if opsv == 6 { rs.salt.clone() } else { vec![] }, issuer, last: 1 };
+                    for unsalted in [false, true] {
+                        if unsalted && sigv != 6 {
+                            continue;
+                        }
+                        let sig_body = if unsalted {
+                            // same packet, signature value made over H(content || fields || trailer) without the salt
+                            let mut r2 = rs.clone();
+                            let salt = std::mem::take(&mut r2.salt);
+                            let Some(d) = r2.digest_over(&content) else { continue };
+                            r2.salt = salt;
+                            r2.left16 = [d[0], d[1]];
+                            let Ok(sb) = signer.sign(&Password::empty(), hash.1, &d) else { continue };
+                            r2.sig_data = sigbytes_wire(&sb);
+                            r2.encode()
+                        } else {
+                            body.clone()
+                        };
+                        let mut lit = vec![if typ == 1 { b't' } else { b'b' }, 0, 0, 0, 0, 0];
+                        lit.extend_from_slice(if typ == 1 { &canon } else { doc });
+                        let mut msg = rfc::frame::frame(4, &ops.encode(), &rfc::frame::LenForm::NewMin).unwrap();
+                        msg.extend(rfc::frame::frame(11, &lit, &rfc::frame::LenForm::NewMin).unwrap());
+                        msg.extend(rfc::frame::frame(2, &sig_body, &rfc::frame::LenForm::NewMin).unwrap());
+                        let ver = RecVerifier::new(&pubkey);
+                        let replay = json!({"key": k.name, "ops_version": opsv, "sig_version": sigv, "typ": typ, "unsalted": unsalted, "message": hexs(&msg)});
+                        let r = ctx.guarded("C11/verify-ops-pair", || replay.clone(), || -> Result<(), String> {
+                            let mut m = Message::from_bytes(&msg[..]).map_err(|e| e.to_string())?;
+                            let mut out = vec![];
+                            m.read_to_end(&mut out).map_err(|e| e.to_string())?;
+                            m.verify(&ver).map(|_| ()).map_err(|e| e.to_string())
+                        });
+                        ctx.eval();
+                        ctx.cover(&("ops-pair", &k.name, opsv, sigv, typ, unsalted));
+                        ctx.seen("ops x signature version", format!("ops-v{opsv}/sig-v{sigv}{}", if unsalted { "/unsalted" } else { "" }));
+                        let seen = ver.take();
+                        for sd in &seen {
+                            if sd.digest != want {
+                                ctx.violation(
+                                    format!("C11/verify-inline/ops-v{opsv}-sig-v{sigv}/digest-is-not-the-rfc-digest"),
+                                    format!("one-pass v{opsv} header in front of a v{sigv} signature: the primitive was handed {} but the RFC 5.2.4 digest of that signature packet is {}", hex::encode(&sd.digest), hex::encode(&want)),
+                                    replay.clone(),
+                                );
+                            }
+                        }
+                        if let Some(Ok(())) = r {
+                            if unsalted {
+                                ctx.violation(
+                                    format!("C11/verify-inline/ops-v{opsv}-sig-v{sigv}/unsalted-signature-accepted"),
+                                    "a v6 signature whose value was made over the digest without the salt was accepted",
+                                    replay.clone(),
+                                );
+                            }
+                        } else if let Some(Err(e)) = r {
+                            // the RFC pairings (v3 header + v4 signature, v6 header + v6 signature) with the RFC digest must verify
+                            let legal = (opsv == 3 && sigv == 4) || (opsv == 6 && sigv == 6);
+                            if legal && !unsalted {
+                                ctx.violation(format!("C11/verify-inline/ops-v{opsv}-sig-v{sigv}/reference-signature-rejected"), e, replay.clone());
+                            }
+                        }
+                    }
+                }
+            }
+        }
+    }
+
     // ================= key framing widths: unknown-algorithm keys with bodies > 255 and > 65535 octets
     for (i, len) in [10usize, 300, 65530, 70000].iter().enumerate() {
         for v in [4u8, 6] {
